@@ -343,7 +343,7 @@ impl Scenario for S5b {
 
     fn generate(seed: u64, _run: u64, _prop: &'static str, tier: Tier) -> HeapCase {
         let mut g = Sm::new(seed);
-        let k = g.range(1, 8) as usize;
+        let k = if g.chance(1, 12) { g.range(30, 300) } else { g.range(1, 8) } as usize;
         let (w, d) = match g.below(10) {
             0 => (1, 1),
             1 => (1, 2),
@@ -359,7 +359,7 @@ impl Scenario for S5b {
             6..=8 => g.range(50, 600),
             _ => g.range(300, maxlen),
         } as usize;
-        let alphabet = g.range(1, 64) as usize;
+        let alphabet = if k > 8 { g.range(k as u64 / 2, 3 * k as u64) } else { g.range(1, 64) } as usize;
         let (mut stream, shape) = gen_stream(&mut g, len, alphabet, k + 1);
         // structured keys as well as scattered ones
         if g.chance(1, 2) {
